@@ -17,7 +17,7 @@ with the given kernel is not formalised.
 import os, re
 import vlib
 import chain_oracle as co
-from c09 import load_extra_known, table_rows, hx, DRV, LV
+from c09 import table_rows, hx, DRV, LV, run_c, correspond
 
 
 def random_strategy(rng, n):
@@ -50,7 +50,7 @@ def trace_stage(ctx, l, exe, rows_sample):
         lines.append("theta.trace.row %x %x %x %s" % (n, ea, rng.below(2), " ".join(hx(x) for x in st + [0, 0])))
     for n in sorted({4, 5, 6, 7, 9, 12, 20, 4 + rng.below(200), LV[l]["f"] - 2}):
         lines.append("theta.bal %x" % n)
-    dis = vlib.correspond(ctx, "theta chain traces L%d" % l, lines, [exe])
+    dis = correspond(ctx, "theta chain traces L%d" % l, lines, [exe], timeout=120 if ctx.quick else 1800)
     for ln in lines:
         ctx.case("trace:L%d:%s" % (l, " ".join(ln.split()[:5])))
     return dis
@@ -100,7 +100,7 @@ def check_e2e(l, ln, u, res):
 
 def run_e2e(ctx, l, exe, lens, tag="kani"):
     cases = e2e_lines(ctx, l, lens)
-    rc, outs, err = vlib.run_c([exe], [c[0] for c in cases])
+    rc, outs, err = run_c([exe], [c[0] for c in cases], timeout=150 if ctx.quick else 1800)
     bad = nf = 0
     for i, (line, ln, u) in enumerate(cases):
         if i >= len(outs):
@@ -174,7 +174,7 @@ def classify(ctx, l, exe, d):
     if len(ctx.violations) == before:
         try:
             sexe = ctx.cc_harness(DRV, os.path.join(ctx.tmp, "drv_chain_san%d" % l), l, san=True)
-            rc, outs, err = vlib.run_c([sexe], [d["op"]], env={"UBSAN_OPTIONS": "print_stacktrace=0"})
+            rc, outs, err = run_c([sexe], [d["op"]], timeout=60, env={"UBSAN_OPTIONS": "print_stacktrace=0"})
             if rc != 0 and ("AddressSanitizer" in err or "runtime error" in err):
                 ctx.violation("trace:L%d:%s:memory" % (l, " ".join(t[:5])), "theta chain routine leaves its arrays / tables (sanitizer abort)",
                               dict(level=l, op=d["op"][:300], sanitizer=err[-1200:], model=d["model"][:300], impl=d["impl"][:300]))
@@ -186,7 +186,6 @@ def classify(ctx, l, exe, d):
 
 
 def run(ctx):
-    load_extra_known(ctx, "C12")
     ctx.trusted += ["tools/translate/tables.py (strategies extraction)",
                     "hand model SqiModel.ThetaChain tied by hook-trace correspondence (tools/harness/drv_chain.c)",
                     "library routines used to *build* Kani kernels (represent_integer_non_diag, endomorphism_application_even_basis, weil)",
